@@ -5,7 +5,9 @@ calls on the real sources / BinaryBitmap)."""
 import bisect, concurrent.futures, json, random
 import vlib
 
-IMG_KINDS = ["gray", "plain", "gray16", "rgba", "nrgba", "rgba64", "nrgba64", "cmyk", "pal", "ycbcr"]
+IMG_KINDS = ["gray", "plain", "gray16", "rgba", "nrgba", "rgba64", "nrgba64", "cmyk", "pal", "ycbcr",
+             # the same picture as a SubImage of a larger parent (stride wider than the picture, origin inside the parent)
+             "gray+sub", "rgba+sub", "nrgba+sub", "gray16+sub", "cmyk+sub", "ycbcr+sub", "pal+sub"]
 ALL_KINDS = ["rgb", "yuv"] + IMG_KINDS
 SIZES = [1, 2, 3, 4, 5, 6, 7, 8, 9, 10, 15, 16, 17, 24, 31, 32, 33, 39, 40, 41, 47, 48, 49, 63, 64, 65, 79, 80, 100, 127, 128,
          160, 199, 200]
